@@ -353,7 +353,10 @@ def run(ctx):
     if ctx.quick:
         plan = [("W1", 1, "lines"), ("W2", 1, "lines"), ("W3", 1, "storage"), ("W4", 1, "lines"), ("W5", 2, "storage"), ("W6", 1, "lines"), ("W7", 1, "storage"), ("W8", 1, "lines"), ("W9", 1, "storage"), ("W10", 1, "lines")]
     else:
-        plan = [("W1", 2, "lines"), ("W2", 2, "storage"), ("W2", 1, "lines"), ("W3", 1, "lines"), ("W4", 1, "lines"), ("W4", 2, "storage"), ("W5", 2, "lines"), ("W6", 2, "storage"), ("W6", 1, "lines"), ("W7", 2, "storage"), ("W7", 1, "lines"), ("W8", 2, "storage"), ("W8", 1, "lines"), ("W9", 1, "lines"), ("W9", 2, "storage"), ("W10", 1, "lines"), ("W10", 2, "storage")]
+        # bound 2 always at storage granularity (every line of _storage.py + call events elsewhere),
+        # bound 1 at every source line: a bound-2 search over every line of a workload with failing
+        # calls runs for hours
+        plan = [("W1", 2, "storage"), ("W1", 1, "lines"), ("W2", 2, "storage"), ("W2", 1, "lines"), ("W3", 1, "lines"), ("W4", 1, "lines"), ("W4", 2, "storage"), ("W5", 2, "storage"), ("W5", 1, "lines"), ("W6", 2, "storage"), ("W6", 1, "lines"), ("W7", 2, "storage"), ("W7", 1, "lines"), ("W8", 2, "storage"), ("W8", 1, "lines"), ("W9", 1, "lines"), ("W9", 2, "storage"), ("W10", 1, "lines"), ("W10", 2, "storage")]
     jobs, meta = [], {}
     for wname, bound, mode in plan:
         name = wname
